@@ -313,12 +313,25 @@ func c19JudgeConfig(mask int) *vlib.Failure {
 	set(6, func() { cfg.MaxAgeInSeconds = 86401 })
 	set(7, func() { cfg.PreflightSuccessStatus = 300 })
 	set(8, func() { cfg.PrivateNetworkAccess, cfg.PrivateNetworkAccessInNoCORSModeOnly = true, true })
-	for pass := 0; pass < 2; pass++ {
+	for pass := 0; pass < 5; pass++ {
 		var err error
-		if pass == 0 {
+		switch pass {
+		case 0:
 			_, err = cors.NewMiddleware(cfg)
-		} else {
+		case 1:
 			err = new(cors.Middleware).Reconfigure(&cfg)
+		default:
+			// a configured middleware, debug off / on / on and then a failed attempt before
+			m, e0 := cors.NewMiddleware(cors.Config{Origins: []string{"https://other.example"}, RequestHeaders: []string{"X-A"}})
+			if e0 != nil {
+				return vlib.Failf("auxiliary configuration rejected: %v", e0)
+			}
+			m.SetDebug(pass >= 3)
+			if pass == 4 {
+				bad := cors.Config{}
+				m.Reconfigure(&bad)
+			}
+			err = m.Reconfigure(&cfg)
 		}
 		if want == 0 {
 			if err != nil {
@@ -333,6 +346,9 @@ func c19JudgeConfig(mask int) *vlib.Failure {
 		for e := range cfgerrors.All(err) {
 			if e == nil {
 				return vlib.Failf("nil error yielded")
+			}
+			if _, f := c05Describe(e); f != nil {
+				return vlib.Failf("pass %d: %s", pass, f.Detail)
 			}
 			got++
 		}
